@@ -117,7 +117,7 @@ def frame_obligations(V, X, c, ev0, H0, hp, rr, pkg):
                     continue   # local temporaries (escape analysis artefacts) are not observable
                 V.add_obl('frame', newv == oldv, rr, label='alloc.' + name, text='allocates clause does not list ' + hk[1])
             continue
-        if hk[0] in ('g', 'ghost'):
+        if hk[0] == 'g' or (hk[0] == 'ghost' and len(hk) <= 3):
             if hk not in targets:
                 V.add_obl('frame', newv == oldv, rr, label=name, text='not in assigns')
             continue
